@@ -13,7 +13,18 @@ Streams
   to_folded     stock conv+BN models (sequential, branched, non-foldable variants):
                 convert_to_folded_model / model_quantize(enable_bn_folding=True): fold-site selection
                 and class substitution against the model; predictions against the property.
+  history       ONE layer object (inside one model object) used many times: get_folded_weights /
+                unfold_model / inference calls by several routes and on inputs of several shapes,
+                interleaved with parameter replacements that are not training steps (variable.assign,
+                layer.set_weights, model.set_weights, save_weights -> load_weights in both formats,
+                `_iteration` kept or changed).  After every step the observation is compared with the
+                Lean model of the CURRENT parameters (`Obj.run`), with the property's formula evaluated
+                in exact rationals on the current parameters, and with a fresh twin object.
 """
+import math
+import os
+import shutil
+import tempfile
 import fractions
 
 import numpy as np
@@ -25,6 +36,14 @@ EPS_EXACT = 2.0 ** -10
 
 
 # --------------------------------------------------------------------------- helpers
+
+def worst_index(a, b):
+  """flat index of the largest difference of two real outputs (0 when even the shapes differ)"""
+  a, b = np.asarray(a), np.asarray(b)
+  if a.shape != b.shape:
+    return 0
+  return int(np.argmax(np.abs(a - b)))
+
 
 def fr(a):
   """numpy array -> list of exact Fractions (row-major); non-finite entries stay floats (they never
@@ -67,7 +86,12 @@ WIDE = {"bits": 14, "integer": 4, "symmetric": False, "keep_negative": True}   #
 def geom_fields(c):
   return {"cls": c["cls"], "n": c["n"], "h": c["h"], "w": c["w"], "cin": c["cin"], "kh": c["kh"],
           "kw": c["kw"], "sh": c["sh"], "sw": c["sw"], "dh": c["dh"], "dw": c["dw"],
-          "same": c["same"], "cm": c["cm"]}
+          "same": c["same"], "cm": c["cm"], "cf": bool(c.get("cf", False))}
+
+
+def x_shape(c, n=None, h=None, w=None):
+  n, h, w = n or c["n"], h or c["h"], w or c["w"]
+  return (n, c["cin"], h, w) if c.get("cf") else (n, h, w, c["cin"])
 
 
 def cout_of(c):
@@ -112,14 +136,59 @@ def geometries(rng, tier):
   return out
 
 
+def geometries_cross(tier):
+  """the cross-cutting corners: batch 1, spatial extents of 1, kernel as large as / larger than the
+  input, stride > kernel, dilation (incl. anisotropic, incl. SAME with a dilated extent larger than the
+  input), channels_first (depthwise class; the conv class ignores data_format, see the finding)"""
+  out = []
+  for cls in ("conv", "dw"):
+    for same in (False, True):
+      out.append((cls, 5, 5, 2, 2, 2, 1, 1, 1, 1, same, 3 if cls == "conv" else 1, {"n": 1}))   # batch 1
+      out.append((cls, 1, 5, 2, 1, 2, 1, 1, 1, 1, same, 2, {}))                                   # height 1
+      out.append((cls, 4, 1, 2, 2, 1, 1, 1, 1, 1, same, 2, {"n": 1}))                             # width 1
+      out.append((cls, 1, 1, 3, 1, 1, 1, 1, 1, 1, same, 2, {}))                                   # 1x1 input
+      if same:
+        out.append((cls, 1, 1, 2, 3, 3, 1, 1, 1, 1, True, 2, {}))        # kernel larger than the input
+        out.append((cls, 2, 2, 2, 3, 3, 2, 2, 1, 1, True, 2, {"n": 1}))
+        out.append((cls, 4, 4, 2, 3, 3, 1, 1, 2, 2, True, 2, {}))        # dilated extent 5 > input 4
+      else:
+        out.append((cls, 3, 2, 2, 3, 2, 1, 1, 1, 1, False, 2, {}))       # kernel == input: 1x1 output
+        out.append((cls, 5, 5, 2, 3, 3, 1, 1, 2, 2, False, 2, {}))       # dilated extent == input
+      out.append((cls, 7, 7, 2, 2, 2, 3, 3, 1, 1, same, 2, {}))                                   # stride > kernel
+      out.append((cls, 5, 6, 2, 1, 1, 2, 3, 1, 1, same, 2, {}))                                   # 1x1 kernel, stride 2x3
+      out.append((cls, 6, 5, 2, 2, 3, 1, 1, 3, 2, same, 2, {}))                                   # anisotropic dilation
+    for same in (False, True):
+      if cls == "dw":
+        out.append((cls, 5, 4, 2, 2, 2, 1, 1, 1, 1, same, 1, {"cf": True}))
+        out.append((cls, 6, 5, 3, 3, 2, 2, 1, 1, 1, same, 2, {"cf": True}))
+        out.append((cls, 4, 4, 2, 2, 2, 1, 1, 2, 2, same, 2, {"cf": True, "n": 1}))
+        out.append((cls, 1, 3, 2, 1, 2, 1, 1, 1, 1, same, 3, {"cf": True}))
+  return out
+
+
+ROUTES = ("training=False", "default", "training=0", "tf.function", "tensor-input")
+
+
 def layer_case(rng, geo, mode, use_bias, scale, center, qk, qb, act, regime):
-  cls, h, w, cin, kh, kw, sh, sw, dh, dw, same, cm = geo
-  c = {"cls": cls, "n": 2, "h": h, "w": w, "cin": cin, "kh": kh, "kw": kw, "sh": sh, "sw": sw,
+  cls, h, w, cin, kh, kw, sh, sw, dh, dw, same, cm = geo[:12]
+  extra = geo[12] if len(geo) > 12 else {}
+  c = {"cls": cls, "n": extra.get("n", 2), "h": h, "w": w, "cin": cin, "kh": kh, "kw": kw, "sh": sh, "sw": sw,
        "dh": dh, "dw": dw, "same": same, "cm": cm, "mode": mode, "use_bias": use_bias,
-       "scale": scale, "center": center, "qk": qk, "qb": qb, "act": act, "regime": regime}
+       "scale": scale, "center": center, "qk": qk, "qb": qb, "act": act, "regime": regime,
+       "cf": bool(extra.get("cf", False)), "form": 0, "route": "training=False", "efd": None}
   co = cout_of(c)
   kshape = (kh, kw, cin, cm)
-  c["x"] = dy(rng, (c["n"], h, w, cin), 3, -2)
+  c["x"] = dy(rng, x_shape(c), 3, -2)
+  fill_params(rng, c, regime)
+  if regime != "exact" and qk is not None and rng.random() < 0.5:
+    aim_at_breakpoints(rng, c)
+  return c
+
+
+def fill_params(rng, c, regime="exact"):
+  """(new) parameters of a folded layer into c: kernel, bias, var, gamma, beta, mean (+ eps)"""
+  co = cout_of(c)
+  kshape = (c["kh"], c["kw"], c["cin"], c["cm"])
   if regime == "exact":
     c["eps"] = EPS_EXACT
     c["kernel"] = dy(rng, kshape, 3, -3)
@@ -142,8 +211,6 @@ def layer_case(rng, geo, mode, use_bias, scale, center, qk, qb, act, regime):
     c["gamma"] = gm
     c["beta"] = rng.standard_normal((co,)).astype(np.float32)
     c["mean"] = (rng.standard_normal((co,)) * 2).astype(np.float32)
-    if qk is not None and rng.random() < 0.5:
-      aim_at_breakpoints(rng, c)
   return c
 
 
@@ -190,55 +257,111 @@ def lean_layer_line(tf, c, run):
   return line
 
 
+def qobj(qkeras, q):
+  if q is None:
+    return None
+  return qkeras.quantized_bits(q["bits"], q["integer"], 1 if q["symmetric"] else 0,
+                               keep_negative=q["keep_negative"], alpha=1)
+
+
+def make_layer(qkeras, c, name=None):
+  """the real folded layer object of a case (not built yet).  c["form"] = 1: the same values in other
+  argument forms (ints / lists instead of tuples, upper-case padding, numpy epsilon, quantizer objects
+  instead of strings)"""
+  pad = "same" if c["same"] else "valid"
+  ks, st, dl = (c["kh"], c["kw"]), (c["sh"], c["sw"]), (c["dh"], c["dw"])
+  eps, qk, qb = c["eps"], qstr(c["qk"]), qstr(c["qb"])
+  if c.get("form", 0) == 1:
+    pad = pad.upper()
+    ks = c["kh"] if c["kh"] == c["kw"] else [c["kh"], c["kw"]]
+    st = c["sh"] if c["sh"] == c["sw"] else [c["sh"], c["sw"]]
+    dl = c["dh"] if c["dh"] == c["dw"] else [c["dh"], c["dw"]]
+    eps = np.float32(eps)
+    qk, qb = qobj(qkeras, c["qk"]), qobj(qkeras, c["qb"])
+  common = dict(strides=st, padding=pad, dilation_rate=dl,
+                use_bias=c["use_bias"], epsilon=eps, center=c["center"], scale=c["scale"],
+                folding_mode=c["mode"], bias_quantizer=qb, ema_freeze_delay=c.get("efd"),
+                activation=(None if c["act"] == "linear" else c["act"]))
+  if name is not None:
+    common["name"] = name
+  if c.get("cf") and not c.get("global_cf"):
+    common.update(data_format="channels_first", axis=1)
+  elif c.get("cf"):
+    common.update(axis=1)           # data_format left to the process-level default
+  if c["cls"] == "conv":
+    return qkeras.QConv2DBatchnorm(c["cm"], ks, kernel_quantizer=qk, **common)
+  return qkeras.QDepthwiseConv2DBatchnorm(ks, depth_multiplier=c["cm"], depthwise_quantizer=qk, **common)
+
+
 def build_real_layer(tf, qkeras, c):
   """the real folded layer with the case's parameters"""
-  pad = "same" if c["same"] else "valid"
-  common = dict(strides=(c["sh"], c["sw"]), padding=pad, dilation_rate=(c["dh"], c["dw"]),
-                use_bias=c["use_bias"], epsilon=c["eps"], center=c["center"], scale=c["scale"],
-                folding_mode=c["mode"], bias_quantizer=qstr(c["qb"]),
-                activation=(None if c["act"] == "linear" else c["act"]))
-  if c["cls"] == "conv":
-    layer = qkeras.QConv2DBatchnorm(c["cm"], (c["kh"], c["kw"]), kernel_quantizer=qstr(c["qk"]), **common)
-  else:
-    layer = qkeras.QDepthwiseConv2DBatchnorm((c["kh"], c["kw"]), depth_multiplier=c["cm"],
-                                             depthwise_quantizer=qstr(c["qk"]), **common)
-  import tensorflow as tf2
+  layer = make_layer(qkeras, c)
   try:   # first call creates the variables (the inner BatchNormalization is built by the call)
-    layer(tf2.zeros((1, c["h"], c["w"], c["cin"])), training=False)
+    layer(tf.zeros(x_shape(c, n=1)), training=False)
   except Exception:  # pylint: disable=broad-except
     pass            # (before fix d42f1d8 center=False raised here, after the variables exist)
   set_folded_params(c, layer)
   return layer
 
 
-def set_folded_params(c, layer):
-  (layer.kernel if c["cls"] == "conv" else layer.depthwise_kernel).assign(c["kernel"])
+def call_layer(tf, layer, x, route):
+  """inference by one of the routes that all mean `training=False`"""
+  if route == "default":            # no training argument, no learning phase set: inference
+    return layer(x).numpy()
+  if route == "training=0":
+    return layer(x, training=0).numpy()
+  if route == "tf.function":
+    return tf.function(lambda t: layer(t, training=False))(tf.constant(x)).numpy()
+  if route == "tensor-input":
+    return layer(tf.constant(x), training=False).numpy()
+  if route == "image_data_format=channels_first":   # process-level default switched AFTER construction
+    K = tf.keras.backend
+    old = K.image_data_format()
+    K.set_image_data_format("channels_first")
+    try:
+      return layer(x, training=False).numpy()
+    finally:
+      K.set_image_data_format(old)
+  if route == "learning_phase=1":   # process-level switch; an explicit training=False wins
+    K = tf.keras.backend
+    K.set_learning_phase(1)
+    try:
+      return layer(x, training=False).numpy()
+    finally:
+      K.set_learning_phase(0)
+  return layer(x, training=False).numpy()
+
+
+def set_folded_params(c, layer, p=None):
+  p = p or c
+  (layer.kernel if c["cls"] == "conv" else layer.depthwise_kernel).assign(p["kernel"])
   if c["use_bias"]:
-    layer.bias.assign(c["bias"])
+    layer.bias.assign(p["bias"])
   bn = layer.batchnorm
   if c["scale"]:
-    bn.gamma.assign(c["gamma"])
+    bn.gamma.assign(p["gamma"])
   if c["center"]:
-    bn.beta.assign(c["beta"])
-  bn.moving_mean.assign(c["mean"])
-  bn.moving_variance.assign(c["var"])
+    bn.beta.assign(p["beta"])
+  bn.moving_mean.assign(p["mean"])
+  bn.moving_variance.assign(p["var"])
 
 
 def build_reference(tf, c):
-  """stock Keras conv -> BatchNormalization with the same parameters"""
+  """stock Keras conv -> BatchNormalization with the same parameters (data_format included)"""
   L = tf.keras.layers
   pad = "same" if c["same"] else "valid"
+  df = "channels_first" if c.get("cf") else "channels_last"
   if c["cls"] == "conv":
     conv = L.Conv2D(c["cm"], (c["kh"], c["kw"]), strides=(c["sh"], c["sw"]), padding=pad,
-                    dilation_rate=(c["dh"], c["dw"]), use_bias=c["use_bias"])
+                    dilation_rate=(c["dh"], c["dw"]), use_bias=c["use_bias"], data_format=df)
   else:
     conv = L.DepthwiseConv2D((c["kh"], c["kw"]), strides=(c["sh"], c["sw"]), padding=pad,
                              dilation_rate=(c["dh"], c["dw"]), depth_multiplier=c["cm"],
-                             use_bias=c["use_bias"])
-  bn = L.BatchNormalization(epsilon=c["eps"], center=c["center"], scale=c["scale"])
-  conv.build((None, c["h"], c["w"], c["cin"]))
+                             use_bias=c["use_bias"], data_format=df)
+  bn = L.BatchNormalization(epsilon=c["eps"], center=c["center"], scale=c["scale"], axis=1 if c.get("cf") else -1)
+  conv.build((None,) + x_shape(c)[1:])
   co = cout_of(c)
-  bn.build((None, 1, 1, co))
+  bn.build((None, co, 1, 1) if c.get("cf") else (None, 1, 1, co))
   (conv.kernel if c["cls"] == "conv" else conv.depthwise_kernel).assign(c["kernel"])
   if c["use_bias"]:
     conv.bias.assign(c["bias"])
@@ -251,15 +374,23 @@ def build_reference(tf, c):
   return conv, bn
 
 
+CLASSNAME = {"conv": "QConv2DBatchnorm", "dw": "QDepthwiseConv2DBatchnorm"}
+
+
 def case_key(c):
-  return {"class": "QConv2DBatchnorm" if c["cls"] == "conv" else "QDepthwiseConv2DBatchnorm",
-          "mode": c["mode"], "use_bias": c["use_bias"], "scale": c["scale"], "center": c["center"],
-          "quantized": c["qk"] is not None or c["qb"] is not None, "regime": c["regime"]}
+  k = {"class": CLASSNAME[c["cls"]],
+       "mode": c["mode"], "use_bias": c["use_bias"], "scale": c["scale"], "center": c["center"],
+       "quantized": c["qk"] is not None or c["qb"] is not None, "regime": c["regime"]}
+  if c.get("cf"):
+    k["data_format"] = "channels_first"
+  return k
 
 
 def case_desc(c):
-  d = {k: c[k] for k in ("cls", "mode", "use_bias", "scale", "center", "qk", "qb", "act", "regime",
-                         "h", "w", "cin", "kh", "kw", "sh", "sw", "dh", "dw", "same", "cm", "eps")}
+  d = {k: c[k] for k in ("cls", "mode", "use_bias", "scale", "center", "qk", "qb", "act", "regime", "n",
+                         "h", "w", "cin", "kh", "kw", "sh", "sw", "dh", "dw", "same", "cm", "eps", "cf",
+                         "form", "route", "efd")}
+  d["eps"] = float(d["eps"])
   for k in ("kernel", "bias", "gamma", "beta", "mean", "var", "x"):
     d[k] = [float(v) for v in np.asarray(c[k]).ravel()[:64]]
   return d
@@ -295,6 +426,34 @@ def stream_layers(run, tf, qkeras, rng, tier):
                               QUANTS[(gi + 1) % len(QUANTS)], "linear", "exact"))
   for geo in (geos[1], geos[len(geos) // 2 + 1]):
     cases.append(layer_case(rng, geo, "ema_stats_folding", True, True, False, None, None, "linear", "float"))
+  # cross-cutting corners (batch 1, extents of 1, kernel >= input, stride > kernel, dilation + SAME,
+  # channels_first): per geometry 4 cases rotating mode / use_bias / scale / center / quantizers
+  n_plain = len(cases)
+  for gi, geo in enumerate(geometries_cross(tier)):
+    for v in range(4):
+      k = gi + v
+      mode = ("ema_stats_folding", "batch_stats_folding")[(gi + v) % 2]
+      use_bias, scale, center = bool((k // 2) % 2), bool(k % 3), bool((k + 1) % 5)
+      if v % 2 == 0:
+        qk = qb = None
+        act = "linear"
+      else:
+        qk = QUANTS[k % len(QUANTS)] if (k % 5) else None
+        qb = QUANTS[(k + 3) % len(QUANTS)] if (k % 7) else None
+        act = "relu" if (k % 4 == 3) else "linear"
+        if qk is None and qb is None:
+          qk = QUANTS[0]
+      cases.append(layer_case(rng, geo, mode, use_bias, scale, center, qk, qb, act, "exact"))
+  # the conv class asked for channels_first (finding C15-conv-data-format-ignored): a shape on which
+  # the channels_last layer that is really built runs at all (n, 2, 2, 2 with 2 filters)
+  for (kk, same) in ((1, False), (2, True)):
+    cases.append(layer_case(rng, ("conv", 2, 2, 2, kk, kk, 1, 1, 1, 1, same, 2, {"cf": True}),
+                            "ema_stats_folding", bool(kk % 2), True, True, None, None, "linear", "exact"))
+  # the same values in other argument forms / by other inference routes
+  for ci, c in enumerate(cases):
+    c["form"] = 1 if (ci % 3 == 1) else 0
+    c["route"] = ROUTES[ci % len(ROUTES)] if (ci % 2 or ci >= n_plain) else "training=False"
+    c["efd"] = (None, 0, 3, -1)[ci % 4] if ci % 5 == 0 else None
   # float regime
   nf = 6 if tier == "quick" else 24
   for gi, geo in enumerate(geos):
@@ -320,15 +479,27 @@ def stream_layers(run, tf, qkeras, rng, tier):
     run.count("layer:quantized" if key["quantized"] else "layer:unquantized")
     run.count("geom:%s%s%s" % ("same" if c["same"] else "valid", "+stride" if c["sh"] * c["sw"] > 1 else "",
                                "+dilation" if c["dh"] * c["dw"] > 1 else ""))
-    x = tf.constant(c["x"])
+    if c["n"] == 1:
+      run.count("geom:batch=1")
+    if c["h"] == 1 or c["w"] == 1:
+      run.count("geom:extent=1")
+    if c["sh"] > c["kh"] or c["sw"] > c["kw"]:
+      run.count("geom:stride>kernel")
+    if c["cf"]:
+      run.count("geom:channels_first:" + c["cls"])
+    run.count("route:" + c["route"])
+    run.count("argform:%d" % c["form"])
+    x = c["x"]
     err = None
     try:
       layer = build_real_layer(tf, qkeras, c)
-      y_impl = layer(x, training=False).numpy()
+      y_impl = call_layer(tf, layer, x, c["route"])
       fw = layer.get_folded_weights()
       fk_impl, fb_impl = fw[0].numpy(), fw[1].numpy()
+      it_after = int(layer._iteration.numpy())   # pylint: disable=protected-access
     except Exception as e:  # pylint: disable=broad-except
       err = "%s: %s" % (type(e).__name__, str(e)[:200])
+    x = tf.constant(c["x"])
     y_model = dec(o["y"])
     # ---- center=False (repaired by d42f1d8: beta None -> 0): same checks as every other case
     if not c["center"]:
@@ -336,6 +507,21 @@ def stream_layers(run, tf, qkeras, rng, tier):
     if err is not None:
       run.violate("callable", dict(key, why="raises"), {"case": case_desc(c), "error": err}, mirrored=False)
       continue
+    # ---- the layout that was built (model: ctorCfg) and the one that was asked for
+    built_cf = (layer.data_format == "channels_first")
+    run.compared += 1
+    if built_cf != bool(o["built_cf"]):
+      run.disagree("layer:data_format", case_desc(c), layer.data_format, "channels_first" if o["built_cf"] else "channels_last")
+    if built_cf != c["cf"]:
+      run.count("clause:data_format_respected:FAILS")
+      run.violate("data_format_respected", {"class": CLASSNAME[c["cls"]], "why": "data_format-ignored",
+                                            "requested": "channels_first" if c["cf"] else "channels_last"},
+                  {"case": case_desc(c), "layer.data_format": layer.data_format},
+                  mirrored=(built_cf == bool(o["built_cf"])))
+    # ---- an inference call is not a training step: the step counter stays at -1
+    if it_after != -1:
+      run.violate("inference_is_not_a_step", dict(key, route=c["route"]),
+                  {"case": case_desc(c), "_iteration": it_after}, mirrored=False)
     if not (np.all(np.isfinite(y_impl)) and np.all(np.isfinite(fk_impl)) and np.all(np.isfinite(fb_impl))):
       run.count("clause:finite:FAILS")
       run.violate("finite", key, {"case": case_desc(c), "what": "non-finite layer output or folded weights"},
@@ -403,6 +589,13 @@ def stream_layers(run, tf, qkeras, rng, tier):
       y_ref = fr(bn(conv(x), training=False).numpy())
       worst = 0
       bad = None
+      if not (len(yi) == len(ref_m) == len(y_ref)):
+        # another output geometry than conv -> BN with the same parameters
+        run.count("clause:fold_equals_conv_bn:FAILS")
+        run.violate("fold_equals_conv_bn", dict(key, why="output-size"),
+                    {"case": case_desc(c), "layer_shape": list(np.shape(y_impl)), "layer_elements": len(yi),
+                     "conv_bn_elements": len(y_ref), "expected_elements": len(ref_m)}, mirrored=False)
+        continue
       for t in range(len(yi)):
         tol = tolc * mag[t]
         if abs(yi[t] - ref_m[t]) > tol or abs(y_ref[t] - ref_m[t]) > tol:
@@ -481,7 +674,12 @@ def templates_unfold(rng):
   """specs of models made of folded layers"""
   def F(name, cls, inp, **kw):
     mode = ("ema_stats_folding", "batch_stats_folding")[int(rng.integers(2))]
-    q = [None, None] if rng.random() < 0.4 else [SMALLQ[int(rng.integers(len(SMALLQ)))], SMALLQ[int(rng.integers(len(SMALLQ)))]]
+    if "q" in kw:
+      q = list(kw.pop("q"))
+    else:
+      r = rng.random()
+      qa, qb_ = SMALLQ[int(rng.integers(len(SMALLQ)))], SMALLQ[int(rng.integers(len(SMALLQ)))]
+      q = [None, None] if r < 0.3 else [qa, qb_] if r < 0.6 else [qa, None] if r < 0.8 else [None, qb_]
     d = {"name": name, "type": "f" + cls, "inputs": [inp], "mode": mode,
          "eps": EPS_EXACT, "scale": bool(rng.random() < 0.8), "center": bool(rng.random() < 0.7)}
     d.update(conv_params(rng, cls, kw.pop("kh", 2), kw.pop("kw", 2), kw.pop("cm", 2),
@@ -497,7 +695,32 @@ def templates_unfold(rng):
   out.append(("unf-residual", (4, 4, 2), [
       F("fd", "dw", "in", cm=1, same=True, kh=3, kw=3),
       {"name": "add", "type": "add", "inputs": ["fd", "in"]}, F("fc", "conv", "add", cm=3, act="relu")]))
+  # several folded layers of the SAME class with DIFFERENT quantizer options (None included), the
+  # quantized one first: anything shared between the conversions of two layers (config templates,
+  # caches keyed by class) shows up in the later, un-quantized layers
+  qa, qb_ = SMALLQ[int(rng.integers(len(SMALLQ)))], SMALLQ[int(rng.integers(len(SMALLQ)))]
+  for cls, cm in (("conv", 2), ("dw", 1)):
+    out.append(("unf-mixq-" + cls, (4, 4, 2), [
+        F("g1", cls, "in", cm=cm, q=(qa, qb_)), F("g2", cls, "g1", cm=cm, kh=1, kw=1, q=(None, None)),
+        F("g3", cls, "g2", cm=cm, kh=1, kw=1, q=(qb_, None))]))
+    out.append(("unf-mixq2-" + cls, (4, 4, 2), [
+        F("g1", cls, "in", cm=cm, kh=1, kw=1, q=(None, qa)), F("g2", cls, "g1", cm=cm, q=(qa, qa)),
+        F("g3", cls, "g2", cm=cm, kh=1, kw=1, q=(None, None))]))
   return out
+
+
+def node_weight_list(nd, iteration=-1):
+  """get_weights() order of one layer of a spec"""
+  if nd["type"] not in ("fconv", "fdw"):
+    return []
+  ws = [nd["kernel"]]
+  if nd["use_bias"]:
+    ws.append(nd["bias"])
+  if nd["scale"]:
+    ws.append(nd["gamma"])
+  if nd["center"]:
+    ws.append(nd["beta"])
+  return ws + [np.array(iteration, np.int64), nd["mean"], nd["var"]]
 
 
 def templates_stock(rng):
@@ -668,6 +891,9 @@ def spec_desc(tname, spec):
 
 
 def stream_unfold(run, tf, qkeras, rng, tier):
+  """models of folded layers; every model object is unfolded TWICE: as built, and again after all its
+  parameters have been replaced through set_weights (layer-wise or model-wise, `iteration` unchanged) —
+  successive unfold_model calls on different models and on the same model in one process"""
   from qkeras import bn_folding_utils
   reps = 2 if tier == "quick" else 8
   jobs = []
@@ -677,7 +903,6 @@ def stream_unfold(run, tf, qkeras, rng, tier):
       x = dy(rng, (2,) + ish, 2, -1)
       try:
         m = build_keras(tf, qkeras, ish, spec, rng)
-        y = m.predict(x, verbose=0)
       except Exception as e:  # pylint: disable=broad-except
         run.case(("unfold-build-raises", len(jobs), tname))
         run.count("clause:callable:FAILS")
@@ -685,47 +910,86 @@ def stream_unfold(run, tf, qkeras, rng, tier):
                     {"model": spec_desc(tname, spec), "error": "%s: %s" % (type(e).__name__, str(e)[:300])},
                     mirrored=False)
         continue
-      try:
-        um = bn_folding_utils.unfold_model(m)
-        yu = um.predict(x, verbose=0)
-      except Exception as e:  # pylint: disable=broad-except
-        run.case(("unfold-raises", len(jobs), tname))
-        run.count("clause:conversion_runs:FAILS")
-        run.violate("conversion_runs", {"stream": "unfold", "api": "unfold_model", "template": tname},
-                    {"model": spec_desc(tname, spec), "error": "%s: %s" % (type(e).__name__, str(e)[:300])},
-                    mirrored=False)
-        continue
-      line, names = lean_graph_line(tf, m, spec, x, run)
-      # structure of the unfolded model: classes, use_bias, transferred weights
-      struct_ok = True
-      why = ""
-      for l, ul in zip(m.layers, um.layers):
-        cn = l.__class__.__name__
-        if cn in ("QConv2DBatchnorm", "QDepthwiseConv2DBatchnorm"):
-          want = "QConv2D" if cn == "QConv2DBatchnorm" else "QDepthwiseConv2D"
-          fw = [w.numpy() for w in l.get_folded_weights()]
-          uw = ul.get_weights()
-          if ul.__class__.__name__ != want or not ul.use_bias or len(uw) != 2 or \
-             not (np.array_equal(uw[0], fw[0]) and np.array_equal(uw[1], fw[1])):
+      for rnd in (1, 2):
+        if rnd == 2:
+          # replace every parameter without a training step, then unfold the SAME model object again
+          spec = [dict(nd) for nd in spec]
+          route = ("layer.set_weights", "model.set_weights")[(len(jobs) + r) % 2]
+          allw = []
+          for nd in spec:
+            fill_weights(rng, nd, nd.get("cin", 0))
+            if route == "layer.set_weights" and node_weight_list(nd):
+              m.get_layer(nd["name"]).set_weights(node_weight_list(nd))
+          if route == "model.set_weights":
+            by = {nd["name"]: nd for nd in spec}
+            for l in m.layers:
+              allw += node_weight_list(by[l.name]) if l.name in by else []
+            m.set_weights(allw)
+          x = dy(rng, (2,) + ish, 2, -1)
+        try:
+          y = m.predict(x, verbose=0)
+        except Exception as e:  # pylint: disable=broad-except
+          run.case(("unfold-predict-raises", len(jobs), tname))
+          run.violate("callable", {"stream": "unfold", "template": tname, "why": "raises"},
+                      {"model": spec_desc(tname, spec), "error": "%s: %s" % (type(e).__name__, str(e)[:300])},
+                      mirrored=False)
+          break
+        try:
+          um = bn_folding_utils.unfold_model(m)
+          yu = um.predict(x, verbose=0)
+        except Exception as e:  # pylint: disable=broad-except
+          run.case(("unfold-raises", len(jobs), tname))
+          run.count("clause:conversion_runs:FAILS")
+          run.violate("conversion_runs", {"stream": "unfold", "api": "unfold_model", "template": tname},
+                      {"model": spec_desc(tname, spec), "error": "%s: %s" % (type(e).__name__, str(e)[:300])},
+                      mirrored=False)
+          break
+        line, names = lean_graph_line(tf, m, spec, x, run)
+        # structure of the unfolded model: classes, use_bias, transferred weights, configuration
+        struct_ok = True
+        why = ""
+        cfg_bad = []
+        by = {nd["name"]: nd for nd in spec}
+        for l, ul in zip(m.layers, um.layers):
+          cn = l.__class__.__name__
+          if cn in ("QConv2DBatchnorm", "QDepthwiseConv2DBatchnorm"):
+            want = "QConv2D" if cn == "QConv2DBatchnorm" else "QDepthwiseConv2D"
+            fw = [w.numpy() for w in l.get_folded_weights()]
+            uw = ul.get_weights()
+            nd = by[l.name]
+            cc = {"cls": nd["cls"], "cin": nd["cin"], "cm": nd["cm"], "eps": nd["eps"], "scale": nd["scale"],
+                  "center": nd["center"], "use_bias": nd["use_bias"]}
+            exp = expected_folded(cc, nd)
+            if ul.__class__.__name__ != want or not ul.use_bias or len(uw) != 2 or \
+               not (np.array_equal(uw[0], fw[0]) and np.array_equal(uw[1], fw[1])):
+              struct_ok = False
+              why = "layer %s -> %s, weights differ from get_folded_weights()" % (l.name, ul.__class__.__name__)
+            elif exp is not None and (fr(uw[0]), fr(uw[1])) != exp[:2]:
+              struct_ok = False
+              why = "layer %s: unfolded weights are not the fold of the layer's CURRENT parameters" % l.name
+            bad, diff = check_unfolded_config(l, ul)
+            if bad:
+              cfg_bad.append((l.name, diff))
+          elif ul.__class__.__name__ != cn:
             struct_ok = False
-            why = "layer %s -> %s, weights differ from get_folded_weights()" % (l.name, ul.__class__.__name__)
-        elif ul.__class__.__name__ != cn:
-          struct_ok = False
-          why = "layer %s changed class" % l.name
-      jobs.append((tname, spec, x, y, yu, line, struct_ok, why))
+            why = "layer %s changed class" % l.name
+        jobs.append((tname, spec, x, y, yu, line, struct_ok, why, rnd, cfg_bad))
   outs = core.run_driver("C15", [j[5] for j in jobs])
-  for ji, ((tname, spec, x, y, yu, line, struct_ok, why), o) in enumerate(zip(jobs, outs)):
+  for ji, ((tname, spec, x, y, yu, line, struct_ok, why, rnd, cfg_bad), o) in enumerate(zip(jobs, outs)):
     run.case(("unfold", ji), sample={"stream": "unfold", "model": spec_desc(tname, spec)} if ji == 0 else None)
-    run.count("unfold:" + tname)
+    run.count("unfold:%s:round%d" % (tname, rnd))
+    for nd in spec:
+      if nd["type"] in ("fconv", "fdw"):
+        run.count("unfold:layer-quantizers:kernel=%s,bias=%s" % ("q" if nd["qk"] else "None", "q" if nd["qb"] else "None"))
     y0, yunf = dec(o["y0"]), dec(o["y_unf"])
     run.compared += 2
     if fr(y) != y0:
       run.disagree("unfold:predict", spec_desc(tname, spec), [float(v) for v in y.ravel()[:16]], [float(v) for v in (y0 or [])[:16]])
     if yunf != y0:
       run.disagree("unfold:model_side", spec_desc(tname, spec), "y_unf", "y0")
-    key = {"stream": "unfold", "template": tname}
+    key = {"stream": "unfold", "template": tname, "round": "as-built" if rnd == 1 else "after-set_weights"}
     if not np.array_equal(y, yu):
-      t = int(np.argmax(np.abs(y - yu)))
+      t = worst_index(y, yu)
       run.violate("unfold_preserves", key, {"model": spec_desc(tname, spec), "x": [float(v) for v in x.ravel()],
                                             "index": t, "folded_model": float(y.ravel()[t]), "unfolded_model": float(yu.ravel()[t])},
                   mirrored=False)
@@ -733,6 +997,586 @@ def stream_unfold(run, tf, qkeras, rng, tier):
       run.count("clause:unfold_preserves:bit-equal")
     if not struct_ok:
       run.violate("unfold_weights", key, {"model": spec_desc(tname, spec), "why": why}, mirrored=False)
+    if cfg_bad:
+      run.violate("unfold_config", key, {"model": spec_desc(tname, spec),
+                                         "layers (entry: folded value, unfolded value)": cfg_bad}, mirrored=False)
+    else:
+      run.count("clause:unfold_config:holds")
+
+
+# --------------------------------------------------------------------------- stream: histories on one object
+
+SLOTS = ("kernel", "bias", "gamma", "beta", "mean", "var")
+PKEYS = ("kernel", "bias", "gamma", "beta", "mean", "var")
+
+
+def exact_rsqrt(arg):
+  """1/sqrt of a rational that is a perfect square (the exact regime: var + eps = 4^j), else None"""
+  n, d = arg.numerator, arg.denominator
+  if n <= 0:
+    return None
+  rn, rd = math.isqrt(n), math.isqrt(d)
+  if rn * rn == n and rd * rd == d:
+    return F(rd, rn)
+  return None
+
+
+def kernel_channel(c, t):
+  """output channel scaled into flat kernel element t ([kh, kw, cin, cm] layout)"""
+  cm, cin = c["cm"], c["cin"]
+  return (t % cm) if c["cls"] == "conv" else ((t // cm) % cin) * cm + t % cm
+
+
+def same_or_close(real, exp, exact, mag=None):
+  """bit-equal in the exact regime (short dyadic parameters, rsqrt bit-exact on the variance vector), else
+  within 2^-21 of the magnitude of the terms (`mag`; default: of the value itself) — a few float32 roundings"""
+  if exact:
+    return real == exp
+  if real is None or exp is None or len(real) != len(exp):
+    return False
+  mag = mag or [abs(b) for b in exp]
+  return all(abs(a - b) <= F(1, 2 ** 21) * max(m, F(1, 2 ** 30)) for a, b, m in zip(real, exp, mag))
+
+
+def expected_folded(c, p, rsmap=None):
+  """the property's formula in exact rationals on the parameters p:
+     folded kernel = kernel*gamma/sqrt(var+eps), folded bias = (bias-mean)*gamma/sqrt(var+eps)+beta
+     (gamma = 1 / bias = 0 / beta = 0 when the layer has no such variable).  Independent of the Lean model."""
+  co = cout_of(c)
+  eps = F(float(np.float32(c["eps"])))
+  inv = []
+  for ch in range(co):
+    r = exact_rsqrt(F(float(p["var"][ch])) + eps)
+    if r is None and rsmap is not None:      # not a perfect square: rsqrt as measured (oracle input);
+      r = rsmap.get(F(float(p["var"][ch])) + eps)   # the caller then compares within the stated tolerance
+    if r is None:
+      return None
+    inv.append(r * (F(float(p["gamma"][ch])) if c["scale"] else 1))
+  k = fr(p["kernel"])
+  fk = [k[t] * inv[kernel_channel(c, t)] for t in range(len(k))]
+  fb = [inv[ch] * ((F(float(p["bias"][ch])) if c["use_bias"] else 0) - F(float(p["mean"][ch])))
+        + (F(float(p["beta"][ch])) if c["center"] else 0) for ch in range(co)]
+  magb = [abs(inv[ch]) * ((abs(F(float(p["bias"][ch]))) if c["use_bias"] else 0) + abs(F(float(p["mean"][ch]))))
+          + (abs(F(float(p["beta"][ch]))) if c["center"] else 0) for ch in range(co)]
+  return fk, fb, magb
+
+
+def weight_list(c, p, iteration):
+  """layer.get_weights() order: kernel, [bias], [gamma], [beta], iteration, moving_mean, moving_variance"""
+  ws = [p["kernel"]]
+  if c["use_bias"]:
+    ws.append(p["bias"])
+  if c["scale"]:
+    ws.append(p["gamma"])
+  if c["center"]:
+    ws.append(p["beta"])
+  ws += [np.array(iteration, np.int64), p["mean"], p["var"]]
+  return ws
+
+
+def slot_var(c, lay, slot):
+  if slot == "kernel":
+    return lay.kernel if c["cls"] == "conv" else lay.depthwise_kernel
+  if slot == "bias":
+    return lay.bias
+  bn = lay.batchnorm
+  return {"gamma": bn.gamma, "beta": bn.beta, "mean": bn.moving_mean, "var": bn.moving_variance}[slot]
+
+
+def slot_exists(c, slot):
+  return {"kernel": True, "bias": c["use_bias"], "gamma": c["scale"], "beta": c["center"], "mean": True, "var": True}[slot]
+
+
+HIST_GEOS = [
+    ("conv", 5, 5, 2, 2, 2, 1, 1, 1, 1, False, 3, {}),
+    ("conv", 6, 5, 2, 3, 2, 2, 2, 1, 1, True, 2, {"n": 1}),
+    ("conv", 4, 4, 2, 2, 2, 1, 1, 2, 2, True, 2, {}),
+    ("conv", 3, 3, 3, 1, 1, 1, 1, 1, 1, False, 2, {}),
+    ("dw", 5, 5, 2, 2, 2, 1, 1, 1, 1, False, 1, {}),
+    ("dw", 6, 5, 2, 3, 2, 2, 2, 1, 1, True, 2, {"n": 1}),
+    ("dw", 5, 4, 2, 2, 2, 1, 1, 1, 1, True, 2, {"cf": True}),
+    ("dw", 4, 4, 3, 2, 2, 1, 1, 2, 2, False, 2, {}),
+]
+# (fewer than 8 output channels everywhere in the exact regime: Eigen's rsqrt is exact on the scalar path
+#  and approximate on full AVX packets, i.e. position-dependent for vectors of 8 or more entries)
+
+
+def plan_history(rng, c, length):
+  """a random history: observers {get, unfold, predict} and mutators {assign, set_weights (layer / model
+  route, iteration kept or changed, rarely a wrong number of arrays), save ... load (h5 / tf format),
+  set_iteration}; an observer first most of the time (so that anything memoised is memoised BEFORE the
+  parameters change), every mutator followed by observers, all three observers at the end"""
+  plan = []
+  saved = False
+  last_mut = False
+  for step in range(length):
+    if step == 0:
+      observe = rng.random() < 0.8
+    elif last_mut:
+      observe = rng.random() < 0.85
+    else:
+      observe = rng.random() < 0.4
+    if observe:
+      k = ("get", "unfold", "predict")[int(rng.integers(3))]
+      plan.append({"k": k})
+      last_mut = False
+    else:
+      r = rng.random()
+      if r < 0.38:
+        slot = SLOTS[int(rng.integers(len(SLOTS)))]
+        if not slot_exists(c, slot) and rng.random() < 0.6:
+          slot = ("kernel", "mean", "var")[int(rng.integers(3))]
+        plan.append({"k": "assign", "slot": slot})
+      elif r < 0.72:
+        plan.append({"k": "set_weights", "route": ("layer", "model")[int(rng.integers(2))],
+                     "keep_iteration": bool(rng.random() < 0.6), "wrong_count": bool(rng.random() < 0.08)})
+      elif r < 0.84 and not saved:
+        plan.append({"k": "save", "fmt": ("h5", "tf")[int(rng.integers(2))]})
+        saved = True
+        last_mut = False
+        continue
+      elif r < 0.92 and saved:
+        plan.append({"k": "load"})
+      elif r < 0.95:
+        plan.append({"k": "set_iteration", "i": int(rng.choice([-1, 0, 1, 7, 1000]))})
+      elif r < 0.975:
+        plan.append({"k": "train"})
+      else:
+        plan.append({"k": "reconfigure", "qk": QUANTS[int(rng.integers(len(QUANTS)))],
+                     "qb": QUANTS[int(rng.integers(len(QUANTS)))]})
+      last_mut = True
+  if saved and not any(o["k"] == "load" for o in plan):
+    plan.append({"k": "load"})
+  perm = rng.permutation(3)
+  plan += [{"k": ("get", "unfold", "predict")[int(j)]} for j in perm]
+  return plan
+
+
+def fixed_histories():
+  """the shortest histories of each family, always present for BOTH classes (random plans come on top):
+  observer -> replacement(s) that are not training steps -> the same observer"""
+  out = []
+  for obs in ("get", "unfold"):
+    out.append([{"k": obs}, {"k": "set_weights", "route": "layer", "keep_iteration": True, "wrong_count": False}, {"k": obs}])
+    out.append([{"k": obs}, {"k": "assign", "slot": "kernel"}, {"k": obs}, {"k": "assign", "slot": "mean"},
+                {"k": "assign", "slot": "var"}, {"k": obs}])
+  out.append([{"k": "save", "fmt": "h5"}, {"k": "assign", "slot": "kernel"}, {"k": "assign", "slot": "var"},
+              {"k": "get"}, {"k": "load"}, {"k": "get"}, {"k": "unfold"}])
+  out.append([{"k": "get"}, {"k": "set_weights", "route": "model", "keep_iteration": False, "wrong_count": False},
+              {"k": "unfold"}, {"k": "predict"}, {"k": "set_iteration", "i": -1}, {"k": "get"}])
+  # a real training step (batch-norm statistics and `_iteration` move; parameters are read back)
+  out.append([{"k": "get"}, {"k": "unfold"}, {"k": "train"}, {"k": "get"}, {"k": "unfold"}, {"k": "train"}, {"k": "get"}])
+  # the quantizer attributes replaced on the live layer (populate_bias_quantizer_from_accumulator does this)
+  out.append([{"k": "unfold"}, {"k": "predict"}, {"k": "reconfigure", "qk": QUANTS[0], "qb": QUANTS[1]}, {"k": "unfold"},
+              {"k": "predict"}, {"k": "reconfigure", "qk": QUANTS[3], "qb": QUANTS[4]}, {"k": "predict"}, {"k": "unfold"},
+              {"k": "reconfigure", "qk": QUANTS[2], "qb": QUANTS[5]}, {"k": "get"}])
+  return out
+
+
+def layer_obs_config(ul):
+  cfg = ul.get_config()
+  return {k: cfg.get(k) for k in ("kernel_quantizer", "depthwise_quantizer", "bias_quantizer", "strides", "padding",
+                                  "dilation_rate", "data_format", "activation", "use_bias", "kernel_size",
+                                  "filters", "depth_multiplier") if k in cfg}
+
+
+def check_unfolded_config(lay, ul):
+  """every configuration entry the folded layer shares with its unfolded replacement is carried over
+  unchanged (None stays None) — except use_bias, which becomes True"""
+  a, b = layer_obs_config(lay), layer_obs_config(ul)
+  bad = [k for k in b if k in a and k != "use_bias" and a[k] != b[k]]
+  if not b.get("use_bias"):
+    bad.append("use_bias")
+  return bad, {k: (a.get(k), b.get(k)) for k in bad}
+
+
+def stream_history(run, tf, qkeras, rng, tier):
+  from qkeras import bn_folding_utils
+  K = tf.keras.backend
+  L = tf.keras.layers
+  tmpdir = tempfile.mkdtemp(prefix="qkv-c15-")
+  reps = 2 if tier == "quick" else 6
+  length = 7 if tier == "quick" else 10
+  fixed = fixed_histories()
+  hists = []
+  hi = 0
+  nfixed = {"conv": 0, "dw": 0}
+  try:
+    for rep in range(reps):
+      for gi, geo in enumerate(HIST_GEOS):
+        for mi, mode in enumerate(("ema_stats_folding", "batch_stats_folding")):
+          k = hi
+          hi += 1
+          is_fixed = (gi + mi + rep) % 2 == 0     # per class: every fixed history, modes alternating
+          # options rotate independently of the mode and of fixed / random
+          use_bias, scale, center = bool((gi + rep) % 2), bool((gi + 2 * rep + mi) % 3), bool((gi + rep + 2 * mi + 1) % 4)
+          qsel = (gi + mi + 2 * rep) % 4
+          qk = QUANTS[k % len(QUANTS)] if qsel in (1, 2) else None
+          qb = QUANTS[(k + 2) % len(QUANTS)] if qsel in (1, 3) else None
+          c = layer_case(rng, geo, mode, use_bias, scale, center, qk, qb,
+                         "relu" if (gi + mi + rep) % 5 == 4 else "linear", "exact")
+          c["form"] = (gi + rep) % 2
+          c["efd"] = (None, 0, 3, -1)[(gi + 2 * mi + rep) % 4]
+          c["global_cf"] = bool(c["cf"] and (mi + rep) % 2)
+          if is_fixed:
+            plan = [dict(o) for o in fixed[nfixed[c["cls"]] % len(fixed)]] + plan_history(rng, c, 3)
+            nfixed[c["cls"]] += 1
+          else:
+            plan = plan_history(rng, c, length)
+          hists.append(run_history(run, tf, qkeras, bn_folding_utils, rng, c, plan, tmpdir, k))
+  finally:
+    K.set_image_data_format("channels_last")
+    shutil.rmtree(tmpdir, ignore_errors=True)
+  outs = core.run_driver("C15", [h["line"] for h in hists])
+  for h, o in zip(hists, outs):
+    c = h["c"]
+    base = {"stream": "history", "class": CLASSNAME[c["cls"]]}
+    mobs = o["obs"]
+    if len(mobs) != len(h["obs"]):
+      raise core.InfraError("history: %d model observations for %d steps" % (len(mobs), len(h["obs"])))
+    agree = []
+    for oi, (ro, mo) in enumerate(zip(h["obs"], mobs)):
+      ok = True
+      ex = not ro.get("inexact", False)
+      if not ex:
+        run.count("history:float-regime-observation")
+      if ro["k"] == "weights":
+        run.compared += 2
+        ok = (same_or_close(ro["fk"], dec(mo["fk"]), ex) and same_or_close(ro["fb"], dec(mo["fb"]), ex, ro.get("magb")))
+      elif ro["k"] == "unfolded":
+        run.compared += 3 if ex else 2
+        ok = (same_or_close(ro["uk"], dec(mo["uk"]), ex) and ro["ub"] is not None and
+              same_or_close(ro["ub"], dec(mo["ub"]), ex, ro.get("magb")) and (not ex or ro["uy"] == dec(mo["uy"])))
+      elif ro["k"] == "out":
+        run.compared += 1 if ex else 0
+        ok = (not ex) or (ro["y"] == dec(mo["y"]))
+      elif ro["k"] == "done":
+        run.compared += 1
+        ok = (bool(ro["ok"]) == bool(mo["ok"]))
+      agree.append(ok)
+      if not ok:
+        run.disagree("history:" + ro["k"], {"history": h["desc"], "step": oi, "op": h["ops_desc"][oi]},
+                     {kk: ([float(v) for v in vv[:12]] if isinstance(vv, list) else vv) for kk, vv in ro.items()},
+                     {kk: ([float(F(int(a), int(b))) for a, b in vv[:12]] if isinstance(vv, list) else vv) for kk, vv in mo.items()})
+    run.compared += 1
+    if int(o["iteration"]) != h["iteration"]:
+      run.disagree("history:iteration", h["desc"], h["iteration"], int(o["iteration"]))
+    for (clause, key, detail, oi) in h["pending"]:
+      run.violate(clause, dict(base, **key),
+                  dict(detail, history=h["desc"], step=oi,
+                       op=(h["ops_desc"][oi] if oi is not None and oi < len(h["ops_desc"]) else None)),
+                  mirrored=bool(oi is not None and oi < len(agree) and agree[oi]))
+
+
+def run_history(run, tf, qkeras, bn_folding_utils, rng, c, plan, tmpdir, hid):
+  """execute one history on ONE real layer object inside ONE model object"""
+  K = tf.keras.backend
+  L = tf.keras.layers
+  K.clear_session()
+  if c.get("global_cf"):        # process-level default resolved at construction time, restored before use
+    K.set_image_data_format("channels_first")
+  try:
+    lay = make_layer(qkeras, c, name="fold")
+  finally:
+    K.set_image_data_format("channels_last")
+  inp = L.Input(x_shape(c)[1:], name="in")
+  m = tf.keras.Model(inp, lay(inp))
+  cur = {k: np.array(c[k]) for k in PKEYS}
+  set_folded_params(c, lay, cur)
+  iteration = -1
+  snap = None
+  pending, obs, ops_json, ops_desc = [], [], [], []
+  last_mut, seen_obs = "none", False
+  rstab = []
+  rsmap = {}
+  rs_exact = [True]
+  qcur = {"qk": c["qk"], "qb": c["qb"]}
+  inexact = [False]           # parameters read back after a real training step: float regime
+  last_um = [None]
+
+  def note_var(v):
+    """the rsqrt oracle is measured on every variance VECTOR the history goes through"""
+    tab, ex, nn = rs_table(tf, v, c["eps"])
+    run.count("rsqrt:bit-exact", ex)
+    run.count("rsqrt:oracle-only", nn - ex)
+    for e in tab:
+      if e not in rstab:
+        rstab.append(e)
+        rsmap[F(int(e[0][0]), int(e[0][1]))] = F(int(e[1][0]), int(e[1][1]))
+    rs_exact[0] = (ex == nn)
+  note_var(cur["var"])
+  run.count("history:%s:%s%s" % (c["cls"], c["mode"][:3], ":channels_first" if c["cf"] else ""))
+
+  def key(observer):
+    # one line per (class, observer, kind of the last replacement); the rest goes into the detail
+    return {"observer": observer, "after": last_mut.split(":")[0]}
+
+  def ctx():
+    return {"last_replacement": last_mut, "observed_before_replacement": seen_obs, "mode": c["mode"]}
+
+  def twin():
+    """a FRESH object of the same configuration holding the current parameters"""
+    c2 = dict(c, global_cf=False, qk=qcur["qk"], qb=qcur["qb"])
+    t = make_layer(qkeras, c2)
+    t(tf.zeros(x_shape(c, n=1)), training=False)
+    set_folded_params(c, t, cur)
+    return t
+
+  def pend(clause, k, detail, oi):
+    pending.append((clause, k, dict(detail, **ctx()), oi))
+
+  def exact_now():
+    return rs_exact[0] and not inexact[0]
+
+  def mutated():
+    """after every replacement: a model unfolded EARLIER must not have changed with its source"""
+    if last_um[0] is not None:
+      um0, x0, y0 = last_um[0]
+      if not np.array_equal(um0(x0, training=False).numpy(), y0):
+        pend("unfolded_model_independent", {"observer": "unfold_model", "after": last_mut.split(":")[0]},
+             {"what": "a model returned by an earlier unfold_model call changed when its source was modified"}, len(obs))
+
+  for op in plan:
+    kd = op["k"]
+    desc = {kk: vv for kk, vv in op.items()}
+    try:
+      if kd == "get":
+        run.case(("history", hid, len(obs)))
+        fw = [w.numpy() for w in lay.get_folded_weights()]
+        ro = {"k": "weights", "fk": fr(fw[0]), "fb": fr(fw[1]), "inexact": inexact[0]}
+        ops_json.append({"k": "get"})
+        exp = expected_folded(c, cur, rsmap)
+        run.count("history:get_folded_weights:after=" + last_mut)
+        ro["magb"] = exp[2] if exp is not None else None
+        if exp is not None and not (same_or_close(ro["fk"], exp[0], exact_now()) and
+                                    same_or_close(ro["fb"], exp[1], exact_now(), exp[2])):
+          bad = "kernel" if not same_or_close(ro["fk"], exp[0], exact_now()) else "bias"
+          pend("folded_weights_current", key("get_folded_weights"),
+                          {"what": "get_folded_weights() is not the fold of the CURRENT parameters (folded %s)" % bad,
+                           "folded_kernel": [float(v) for v in ro["fk"][:12]], "expected_kernel": [float(v) for v in exp[0][:12]],
+                           "folded_bias": [float(v) for v in ro["fb"][:12]], "expected_bias": [float(v) for v in exp[1][:12]]},
+                          len(obs))
+        else:
+          run.count("clause:folded_weights_current:holds")
+        tw = [w.numpy() for w in twin().get_folded_weights()]
+        if not (np.array_equal(tw[0], fw[0]) and np.array_equal(tw[1], fw[1])):
+          pend("fresh_twin", key("get_folded_weights"),
+                          {"what": "a fresh layer with the same parameters returns other folded weights",
+                           "this_object": [float(v) for v in fw[1].ravel()[:8]], "fresh_twin": [float(v) for v in tw[1].ravel()[:8]]},
+                          len(obs))
+        seen_obs = True
+      elif kd == "unfold":
+        run.case(("history", hid, len(obs)))
+        nb = int(rng.integers(1, 4))
+        x = dy(rng, x_shape(c, n=nb), 3, -2)
+        um = bn_folding_utils.unfold_model(m)
+        ul = um.layers[1]
+        uw = ul.get_weights()
+        by_predict = bool(rng.random() < 0.5)
+        yu = um.predict(x, verbose=0) if by_predict else um(x, training=False).numpy()
+        ym = m.predict(x, verbose=0) if by_predict else m(x, training=False).numpy()
+        ro = {"k": "unfolded", "uk": fr(uw[0]), "ub": fr(uw[1]) if len(uw) > 1 else None, "uy": fr(yu),
+              "inexact": inexact[0]}
+        last_um[0] = (um, x, um(x, training=False).numpy())
+        ops_json.append({"k": "unfold", "n": nb, "h": c["h"], "w": c["w"], "x": enc(x)})
+        desc["x"] = [float(v) for v in x.ravel()[:32]]
+        run.count("history:unfold_model:after=" + last_mut)
+        exp = expected_folded(c, cur, rsmap)
+        ro["magb"] = exp[2] if exp is not None else None
+        want = "QConv2D" if c["cls"] == "conv" else "QDepthwiseConv2D"
+        if ul.__class__.__name__ != want or len(uw) != 2 or (exp is not None and not (
+            same_or_close(ro["uk"], exp[0], exact_now()) and same_or_close(ro["ub"], exp[1], exact_now(), exp[2]))):
+          pend("unfold_weights", key("unfold_model"),
+                          {"what": "the unfolded %s does not hold the fold of the CURRENT parameters" % ul.__class__.__name__,
+                           "unfolded_kernel": [float(v) for v in ro["uk"][:12]],
+                           "expected_kernel": [float(v) for v in (exp[0] if exp else [])[:12]],
+                           "unfolded_bias": [float(v) for v in (ro["ub"] or [])[:12]],
+                           "expected_bias": [float(v) for v in (exp[1] if exp else [])[:12]]}, len(obs))
+        else:
+          run.count("clause:unfold_weights:holds")
+        if not np.array_equal(yu, ym):
+          t = worst_index(yu, ym)
+          pend("unfold_preserves", key("unfold_model"),
+                          {"what": "unfold_model(m) and m predict differently", "index": t,
+                           "folded_model": float(ym.ravel()[t]), "unfolded_model": float(yu.ravel()[t]),
+                           "route": "predict" if by_predict else "__call__"}, len(obs))
+        else:
+          run.count("clause:unfold_preserves:bit-equal")
+        bad, diff = check_unfolded_config(lay, ul)
+        if bad:
+          pend("unfold_config", key("unfold_model"),
+                          {"what": "configuration of the unfolded layer differs from the folded layer", "entries": diff}, len(obs))
+        seen_obs = True
+      elif kd == "predict":
+        run.case(("history", hid, len(obs)))
+        route = ("model.predict", "model()", "training=False", "default", "training=0", "tf.function",
+                 "learning_phase=1", "other-shape", "image_data_format=channels_first")[int(rng.integers(9))]
+        nb, hh, ww = int(rng.integers(1, 4)), c["h"], c["w"]
+        if route == "other-shape":     # the same layer object on a tensor of another spatial extent
+          hh, ww = c["h"] + int(rng.integers(1, 3)), c["w"] + int(rng.integers(0, 3))
+        x = dy(rng, x_shape(c, n=nb, h=hh, w=ww), 3, -2)
+        if route == "model.predict":
+          y = m.predict(x, verbose=0)
+        elif route == "model()":
+          y = m(x, training=False).numpy()
+        elif route == "other-shape":
+          y = lay(x, training=False).numpy()
+        else:
+          y = call_layer(tf, lay, x, route)
+        ro = {"k": "out", "y": fr(y), "inexact": inexact[0]}
+        ops_json.append({"k": "predict", "n": nb, "h": hh, "w": ww, "x": enc(x)})
+        desc.update(route=route, x=[float(v) for v in x.ravel()[:32]])
+        run.count("history:predict:" + route)
+        yt = twin()(x, training=False).numpy()
+        if not np.array_equal(yt, y):
+          t = worst_index(yt, y)
+          pend("fresh_twin", dict(key("inference"), route=route),
+                          {"what": "a fresh layer with the same parameters computes another output", "index": t,
+                           "this_object": float(y.ravel()[t]), "fresh_twin": float(yt.ravel()[t])}, len(obs))
+        seen_obs = True
+      elif kd == "assign":
+        slot = op["slot"]
+        co = cout_of(c)
+        fresh = dict(c)
+        fill_params(rng, fresh, "exact")
+        v = fresh[slot]
+        ops_json.append({"k": "assign", "slot": slot, "v": enc(v)})
+        try:
+          slot_var(c, lay, slot).assign(v)
+          ok = True
+        except AttributeError:       # the layer has no such variable (None.assign)
+          ok = False
+        if ok != slot_exists(c, slot):
+          pend("callable", {"observer": "assign", "slot": slot}, {"what": "assign outcome", "ok": ok}, len(obs))
+        if ok:
+          cur[slot] = np.array(v)
+          last_mut = "assign:" + slot
+          if slot == "var":
+            note_var(v)
+          mutated()
+        ro = {"k": "done", "ok": ok}
+        run.count("history:assign:" + slot + ("" if ok else ":no-such-variable"))
+      elif kd == "set_weights":
+        fresh = dict(c)
+        fill_params(rng, fresh, "exact")
+        newp = {kk: np.array(fresh[kk]) for kk in PKEYS}
+        it_new = iteration if op["keep_iteration"] else int(rng.choice([-1, 0, 5, 1000]))
+        ws = weight_list(c, newp, it_new)
+        if op["wrong_count"]:
+          ws = ws[:-1]
+        ops_json.append({"k": "set_weights", "ws": [enc(w) for w in ws]})
+        try:
+          (lay if op["route"] == "layer" else m).set_weights(ws)
+          ok = True
+        except ValueError:
+          ok = False
+        if ok == op["wrong_count"]:
+          pend("callable", {"observer": "set_weights"}, {"what": "set_weights outcome", "ok": ok}, len(obs))
+        if ok:
+          cur = newp
+          iteration = it_new
+          note_var(newp["var"])
+          inexact[0] = False
+          last_mut = "set_weights:" + op["route"] + (":same-iteration" if op["keep_iteration"] else ":other-iteration")
+          mutated()
+        ro = {"k": "done", "ok": ok}
+        run.count("history:set_weights:%s%s" % (op["route"], "" if ok else ":wrong-count"))
+      elif kd == "save":
+        path = os.path.join(tmpdir, "h%d.%s" % (hid, "h5" if op["fmt"] == "h5" else "ckpt"))
+        m.save_weights(path)
+        snap = (path, {kk: np.array(vv) for kk, vv in cur.items()}, iteration, op["fmt"], inexact[0])
+        ops_desc.append(desc)
+        ops_json.append({"k": "set_iteration", "i": iteration})     # a no-op for the model
+        obs.append({"k": "done", "ok": True})
+        run.count("history:save_weights:" + op["fmt"])
+        continue
+      elif kd == "load":
+        path, p_s, it_s, fmt, inex_s = snap
+        m.load_weights(path)
+        cur = {kk: np.array(vv) for kk, vv in p_s.items()}
+        iteration = it_s
+        note_var(cur["var"])
+        ops_json.append({"k": "set_weights", "ws": [enc(w) for w in weight_list(c, cur, iteration)]})
+        last_mut = "load_weights:" + fmt
+        inexact[0] = inex_s
+        mutated()
+        ro = {"k": "done", "ok": True}
+        run.count("history:load_weights:" + fmt)
+      elif kd == "train":
+        # ONE real training step: the batch-norm statistics and `_iteration` move.  The training path is
+        # not modelled: the parameters are read back from the layer and given to the model as they are
+        x = dy(rng, x_shape(c, n=int(rng.integers(2, 4))), 3, -2)
+        lay(x, training=True)
+        for slot in SLOTS:
+          if slot_exists(c, slot):
+            cur[slot] = np.array(slot_var(c, lay, slot).numpy())
+        iteration = int(lay._iteration.numpy())   # pylint: disable=protected-access
+        note_var(cur["var"])
+        inexact[0] = True
+        ops_json.append({"k": "set_weights", "ws": [enc(w) for w in weight_list(c, cur, iteration)]})
+        last_mut = "train"
+        mutated()
+        ro = {"k": "done", "ok": True}
+        run.count("history:training-step")
+      elif kd == "reconfigure":
+        # what populate_bias_quantizer_from_accumulator does to the bias quantizer (None -> quantizer, or
+        # another quantizer); the kernel quantizer only from one quantizer to another (a layer built
+        # without one has a plain initializer in its config: Keras cannot re-create it with a quantizer
+        # swapped in or out — not a qkeras route)
+        op = dict(op, qk=(op["qk"] if qcur["qk"] is not None else None))
+        desc = dict(op)
+        nk, nb = qobj(qkeras, op["qk"]), qobj(qkeras, op["qb"])
+        if c["cls"] == "conv":
+          lay.kernel_quantizer = nk
+          lay.kernel_quantizer_internal = nk
+        else:
+          lay.depthwise_quantizer = nk
+          lay.depthwise_quantizer_internal = nk
+        lay.bias_quantizer = nb
+        lay.bias_quantizer_internal = nb
+        lay.quantizers = [nk, nb]
+        m.predict_function = None      # Keras keeps the traced graph of the old attribute values
+        qcur["qk"], qcur["qb"] = op["qk"], op["qb"]
+        ops_json.append({"k": "reconfigure", "qk": op["qk"], "qb": op["qb"]})
+        last_mut = "reconfigure"
+        mutated()
+        ro = {"k": "done", "ok": True}
+        run.count("history:reconfigure:kernel=%s,bias=%s" % ("q" if op["qk"] else "None", "q" if op["qb"] else "None"))
+      elif kd == "set_iteration":
+        lay._iteration.assign(op["i"])   # pylint: disable=protected-access
+        iteration = int(op["i"])
+        ops_json.append({"k": "set_iteration", "i": iteration})
+        ro = {"k": "done", "ok": True}
+        run.count("history:set_iteration")
+      else:
+        raise core.InfraError("bad history op " + kd)
+    except core.InfraError:
+      raise
+    except Exception as e:  # pylint: disable=broad-except
+      pend("callable", {"observer": kd, "why": "raises"},
+                      {"error": "%s: %s" % (type(e).__name__, str(e)[:300])}, None)
+      ops_desc.append(desc)
+      break
+    ops_desc.append(desc)
+    obs.append(ro)
+  # the step counter after the history: only set_weights / load_weights / explicit assignment moved it
+  it_real = int(lay._iteration.numpy())   # pylint: disable=protected-access
+  if it_real != iteration:
+    pending.append(("inference_is_not_a_step", {"observer": "history"},
+                    {"what": "_iteration moved without a training step", "expected": iteration, "observed": it_real}, None))
+  ops_json = ops_json[:len(obs)]
+  tab = rstab
+  line = {"op": "history", "mode": c["mode"], "kernel": enc(c["kernel"]),
+          "bias": enc(c["bias"]) if c["use_bias"] else None,
+          "gamma": enc(c["gamma"]) if c["scale"] else None,
+          "beta": enc(c["beta"]) if c["center"] else None,
+          "mean": enc(c["mean"]), "var": enc(c["var"]), "eps": core.rj(float(np.float32(c["eps"]))),
+          "rs": tab, "qk": c["qk"], "qb": c["qb"], "act": c["act"], "iteration": -1, "ops": ops_json}
+  line.update(geom_fields(c))
+  d = case_desc(c)
+  d["global_data_format_at_construction"] = "channels_first" if c.get("global_cf") else "channels_last"
+  return {"c": c, "line": line, "obs": obs, "pending": pending, "ops_desc": ops_desc, "iteration": iteration,
+          "desc": {"layer": d, "plan": [o["k"] for o in plan]}}
 
 
 QCLASS = {1: "QConv2DBatchnorm", 2: "QDepthwiseConv2DBatchnorm", 3: "QConv2D", 4: "QDepthwiseConv2D"}
@@ -862,7 +1706,7 @@ def stream_to_folded(run, tf, qkeras, rng, tier):
     if np.array_equal(rec["yfm"], rec["y"]):
       run.count("clause:to_folded_preserves:convert:holds")
     else:
-      t = int(np.argmax(np.abs(rec["y"] - rec["yfm"])))
+      t = worst_index(rec["y"], rec["yfm"])
       run.count("clause:to_folded_preserves:convert:FAILS")
       run.violate("to_folded_preserves", dict(key, why="bn-dropped"),
                   {"model": desc, "x": [float(v) for v in rec["x"].ravel()], "index": t, "layers_to_fold": rec["ltf"],
@@ -890,7 +1734,7 @@ def stream_to_folded(run, tf, qkeras, rng, tier):
     if np.array_equal(rec["yq"], rec["y"]):
       run.count("clause:to_folded_preserves:model_quantize:holds")
     else:
-      t = int(np.argmax(np.abs(rec["y"] - rec["yq"])))
+      t = worst_index(rec["y"], rec["yq"])
       run.count("clause:to_folded_preserves:model_quantize:FAILS")
       run.violate("to_folded_preserves", dict(keyq, why="parameters-not-transferred"),
                   {"model": desc, "variant": variant, "index": t, "source_model": float(rec["y"].ravel()[t]),
@@ -906,7 +1750,7 @@ def stream_to_folded(run, tf, qkeras, rng, tier):
       if np.array_equal(rec["yq2"], rec["y"]):
         run.count("clause:to_folded_after_transfer:bit-equal")
       else:
-        t = int(np.argmax(np.abs(rec["y"] - rec["yq2"])))
+        t = worst_index(rec["y"], rec["yq2"])
         run.violate("to_folded_after_transfer", keyq,
                     {"model": desc, "variant": variant, "index": t, "source_model": float(rec["y"].ravel()[t]),
                      "folded_model_with_same_parameters": float(rec["yq2"].ravel()[t])}, mirrored=False)
@@ -922,16 +1766,27 @@ def run(run: core.Run, tier: str):
   run.extra["rule"] = (
       "layer stream (code with fix d42f1d8): {QConv2DBatchnorm, QDepthwiseConv2DBatchnorm} x {ema,batch}_stats_folding x use_bias x "
       "scale x center x geometry {valid,same} x {plain, strided, dilated, rectangular, 1x1, depth multiplier} x "
-      "{no quantizer, kernel+bias quantized_bits, kernel only, bias only} x {linear, relu}; exact regime "
-      "(eps=2^-10, var=4^j-eps, short dyadic gamma incl. 0 and negative) compared bit for bit with the Lean "
-      "model, float regime (log-uniform variances 1e-7..20 incl. 0, zero gammas) within the stated tolerance / "
-      "outside the breakpoint band; non-trivial = every case (each has its own random parameters)")
+      "{no quantizer, kernel+bias quantized_bits, kernel only, bias only} x {linear, relu}, plus the corner geometries "
+      "(batch 1, extents of 1, kernel >= input, stride > kernel, dilation with SAME, channels_first), other argument "
+      "forms and five inference routes; exact regime (eps=2^-10, var=4^j-eps, short dyadic gamma incl. 0 and negative) "
+      "compared bit for bit with the Lean model, float regime (log-uniform variances 1e-7..20 incl. 0, zero gammas) within "
+      "the stated tolerance / outside the breakpoint band.  unfold stream: 7 templates incl. same-class chains with "
+      "different quantizer options per layer, each model object unfolded as built and again after set_weights.  "
+      "history stream: one layer object in one model object, random and fixed sequences of {get_folded_weights, "
+      "unfold_model, inference by 9 routes} and {assign per variable, set_weights layer/model route with same/other "
+      "iteration, save->load_weights h5/tf, _iteration set, a real training step, quantizer attributes replaced}, every "
+      "observation judged against the CURRENT parameters (Lean Obj.run, exact-rational formula, fresh twin object).  "
+      "non-trivial = every case (each has its own random parameters)")
   run.assumptions.append(
       "float32 rounding of the fold is outside the theorems (over Q): without quantizers the real layer and the "
       "real conv->BN are compared with the exact-rational conv->BN within 2^-22*(fan_in+4)*(sum of |terms|); "
       "with quantizers cases where the rounded folded weight lands on the other side of a quantizer breakpoint "
       "are counted (band) and only required to be adjacent codes")
-  run.assumptions.append("rsqrt is an oracle input: the model receives tf.math.rsqrt(var+eps) as measured")
+  run.assumptions.append("rsqrt is an oracle input: the model receives tf.math.rsqrt(var+eps) as measured, per variance "
+                         "vector; the exact regime keeps fewer than 8 output channels (Eigen's packet rsqrt is approximate)")
+  run.assumptions.append("a training step inside a history is executed on the real layer only; the parameters it leaves are "
+                         "read back and handed to the model (training path not modelled)")
   stream_layers(run, tf, qkeras, rng, tier)
   stream_unfold(run, tf, qkeras, rng, tier)
   stream_to_folded(run, tf, qkeras, rng, tier)
+  stream_history(run, tf, qkeras, np.random.default_rng([run.seed, 15]), tier)
